@@ -30,7 +30,7 @@ var forms = []string{
 	`9007199254740992`, `9007199254740993`, `-9007199254740993`, `9223372036854775807`, `9223372036854775808`, `-9223372036854775808`,
 	`-9223372036854775809`, `18446744073709551616`, `1e19`, `-1e19`, `1e30`, `-1e30`, `1e308`, `1e-400`, `123456789012345678901234567890`, `9.3e18`,
 	// strings
-	`""`, `"a"`, `"true"`, `"false"`, `"TRUE"`, `"True"`, `"1"`, `"0"`, `"1700000000"`, `"-5"`, `"1e3"`, `"null"`, `"a b"`, `" a  b "`,
+	`""`, `"a"`, `"true"`, `"false"`, `"TRUE"`, `"True"`, `"1"`, `"0"`, `"t"`, `"T"`, `"f"`, `"y"`, `"on"`, `" true"`, `"true "`, `"1700000000"`, `"-5"`, `"1e3"`, `"null"`, `"a b"`, `" a  b "`,
 	`"en"`, `"en de"`, `"en-us de_CH"`, `"xx-ZZ"`, `"notatagatall"`, `"iw"`, `"und"`, `"en  fr"`, `"zh-Hant-TW"`, `"page"`, `"popup"`, `"POPUP"`,
 	`"x\u0000y"`, `"😀"`, `"\ud800"`, `"ſub"`,
 	// RFC 3339 and look-alikes
@@ -422,7 +422,7 @@ func (g gen) formFor(k kind) string {
 		}
 		return g.jsonString(strings.Join(g.strs(true), pick(r, " ", " ", "  ")))
 	case kBool, kTolBool:
-		return pick(r, "true", "false", `"true"`, `"false"`, `"TRUE"`, `"yes"`, "1", "0", `"1"`, "null", `""`, "[true]", `{"true":true}`)
+		return pick(r, "true", "false", `"true"`, `"false"`, `"TRUE"`, `"yes"`, "1", "0", `"1"`, "null", `""`, "[true]", `{"true":true}`, `"t"`, `"T"`, `"y"`, `"on"`, `" true"`, "2", "1.0", "-1")
 	case kLocale:
 		return pick(r, g.jsonString(pick(r, localeTags...)), g.jsonString(strings.ToLower(pick(r, localeTags...))), g.jsonString(g.str()), `"en_GB"`, `"x-private"`, `"i-klingon"`, `"en-Latn-US-u-ca-gregory"`, "1", "null", `["en"]`)
 	case kLocales:
